@@ -126,6 +126,21 @@ def run(ctx):
     selftest(ctx, events, failed_lines)
     if not ctx.samples:
         ctx.samples.append(brief(events[1], detail, 1))
+    # extension: the on-chain conflict record store (spec/conflictrec, harness/c07conflicts)
+    ext = _load_ext("c07_conflicts")
+    if ext:
+        ext.run_ext(ctx)
+
+
+def _load_ext(name):
+    import importlib.util
+    p = os.path.join(os.path.dirname(os.path.abspath(__file__)), name + ".py")
+    if not os.path.exists(p):
+        return None
+    sp = importlib.util.spec_from_file_location("check_" + name, p)
+    m = importlib.util.module_from_spec(sp)
+    sp.loader.exec_module(m)
+    return m
 
 
 def defects_of(ev):
